@@ -267,7 +267,7 @@ def targets(ctx):
                 for vs in vseeds:
                     rng = random.Random(vs)
                     # enum values are handed over as members or as bare numbers (both are accepted input)
-                    adapter = BPAdapter(schema, enum_as="int" if rng.randrange(2) else "member")
+                    adapter = BPAdapter(schema, enum_as="int" if rng.randrange(2) else "member", empty_via="fresh" if rng.randrange(3) == 0 else "parse")
                     marks = sorted(m for m in fulls if m in cbm0 and m in cbm1)
                     if not marks:
                         break
@@ -380,7 +380,7 @@ def targets(ctx):
         c0, c1 = corpus(), corpus(opts=opts)
         schema = c0.schema
         mi = schema.msg(f"ks.{name}")
-        adapter = BPAdapter(schema, enum_as=case.get("enum_as", "member"))
+        adapter = BPAdapter(schema, enum_as=case.get("enum_as", "member"), empty_via=case.get("empty_via", "parse"))
         vname = "+".join(opts)
 
         def observe(c, t):
@@ -427,13 +427,30 @@ def targets(ctx):
         case = dict(draw(_cm.msg_tree_strategy()))
         case["opts"] = list(draw(st.sampled_from(VARIANTS[1:] + [VARIANTS[3], VARIANTS[5]])))
         case["enum_as"] = draw(st.sampled_from(["member", "int"]))
+        case["empty_via"] = draw(st.sampled_from(["parse", "parse", "fresh"]))
         case["route"] = draw(st.sampled_from(["kwargs", "kwargs", "setattr"]))
         return case
 
     strat = st.tuples(schema_ast(max_packages=2), st.lists(st.integers(0, 2**20), min_size=3, max_size=3)).map(lambda t: {"ast": t[0], "vseeds": t[1]})
     from . import _wkt
 
+    def fresh_cases():
+        """every plain / optional / oneof singular message-typed field of the corpus set to a FRESHLY constructed, empty
+        object of its class (no parse trick), alone, x option set x route: whatever the default output makes of such an
+        object (present for a type without fields, absent otherwise), every option set must make the same of it"""
+        from . import _common as cm
+        from ._corpus import corpus
+
+        schema = corpus().schema
+        for name in cm.TOP_MESSAGES:
+            for fi in schema.msg(f"ks.{name}").fields:
+                if fi.card in ("single", "optional") and fi.type == "message" and fi.wkt is None:
+                    for opts in VARIANTS[1:]:
+                        for route in ("kwargs", "setattr"):
+                            yield {"msg": name, "tree": {fi.name: {}}, "opts": list(opts), "empty_via": "fresh", "route": route}
+
     return [
+        Target("fresh_empty_submessage_x_options", corpus_variant_ev, cases=fresh_cases, exhaustive=True, shard_cases=False),
         Target("corpus_values_x_options", corpus_variant_ev, strategy=corpus_variant_strat(), quick=300, thorough=5000, time_quick=80),
         Target("all_cardinalities_service_x_options", fixed_ev, cases=fixed_cases, exhaustive=True, shard_cases=False),
         Target("grammar_schemas_x_options", grammar_ev, strategy=strat, quick=2, thorough=30, time_quick=150, time_thorough=1500, pin_budget=8, pin_sigs=1),
